@@ -248,11 +248,17 @@ func runSched(c SCase) pbt.Verdict {
 			w := h.Feed(s.Blob, 2)
 			note("%d: feed blob%d: %d pieces", si, s.Blob, w)
 		}
+		if h.Inconclusive {
+			return pbt.Verdict{Discard: true, Classes: []string{"call-did-not-reach-the-loop-in-60s"}}
+		}
 		if msg := check(fmt.Sprintf("after step %d (%s)", si, s.Kind)); msg != "" {
 			return pbt.Fail("%s\n  history:%s", msg, history())
 		}
 	}
 	h.DrainAndStop(8 * time.Second)
+	if h.Inconclusive {
+		return pbt.Verdict{Discard: true, Classes: []string{"call-did-not-reach-the-loop-in-60s"}}
+	}
 	v := pbt.Verdict{NonTrivial: ticksWithAnnounce > 0 && classes["announce-result-applied"]}
 	for k := range classes {
 		v.Classes = append(v.Classes, k)
